@@ -5,6 +5,7 @@
 #include "sbv.h"
 #include <nano/core/sampling.h>
 #include <nano/core/numeric.h>
+#include <nano/gboost/sampler.h>
 #include <splitter/kfold.h>
 #include <splitter/random.h>
 
@@ -167,6 +168,103 @@ extern "C" void sbv_harness(const char*)
         int all_members = 1;
         for (tensor_size_t i = 0; i < sel.size(); ++i) all_members &= member(samples, sel(i));
         sbv_check(all_members, "with replacement: members of the input");
+        for (tensor_size_t i = 0; i < sel.size(); ++i) sbv_out("sel", static_cast<uint64_t>(sel(i)));
+    }
+    else if (sbv_cfg_is("mode", "weighted"))
+    {
+        // weighted sampling with replacement: EVERY pattern of zero / positive weights (at least one positive), every draw of
+        // std::discrete_distribution an arbitrary index of positive probability (contract): no index of zero weight is returned
+        const auto samples = make_samples(n, ordered);
+        const auto count   = static_cast<tensor_size_t>(sbv_cfg("count", 3));
+        tensor_mem_t<scalar_t, 1> weights(n);
+        int                       positives = 0;
+        for (tensor_size_t i = 0; i < n; ++i)
+        {
+            if (sbv_range("wpos", 0, 1) != 0) // forks: the weight pattern is concrete on each path
+            {
+                weights(i) = 0.25 + static_cast<scalar_t>(i);
+                ++positives;
+            }
+            else weights(i) = 0.0;
+        }
+        if (positives == 0) sbv_prune();
+        auto       rng = make_rng(7);
+        const auto sel = sample_with_replacement(samples, weights, count, rng);
+        sbv_check(sel.size() == count, "weighted: `count` elements");
+        sbv_check(sorted(sel), "weighted: sorted");
+        int all_members = 1, nonzero = 1;
+        for (tensor_size_t i = 0; i < sel.size(); ++i)
+        {
+            all_members &= member(samples, sel(i));
+            // weight of the returned index
+            int ok = 0;
+            for (tensor_size_t k = 0; k < n; ++k) ok |= (samples(k) == sel(i) && weights(k) > 0.0) ? 1 : 0;
+            nonzero &= ok;
+        }
+        sbv_check(all_members, "weighted: members of the input");
+        sbv_check(nonzero, "weighted: no index of zero weight is returned");
+        for (tensor_size_t i = 0; i < sel.size(); ++i) sbv_out("sel", static_cast<uint64_t>(sel(i)));
+    }
+    else if (sbv_cfg_is("mode", "gsampler"))
+    {
+        // the gradient-boosting sampler over a symbolic subset of the dataset's samples: type=1 subsample, 2 bootstrap,
+        // 3 loss-weighted, 4 gradient-weighted bootstrap; the weights live per DATASET sample (symbolic zero / positive pattern)
+        const tensor_size_t N = sbv_cfg("N", 6);
+        // every subset of size n of the N dataset samples (membership decided by forking: the indices are concrete on a path)
+        indices_t     samples(n);
+        tensor_size_t taken = 0;
+        for (tensor_size_t s = 0; s < N; ++s)
+            if (sbv_range("in", 0, 1) != 0)
+            {
+                if (taken == n) sbv_prune();
+                samples(taken++) = s;
+            }
+        if (taken != n) sbv_prune();
+        const auto type = static_cast<gboost_subsample>(sbv_cfg("type", 1));
+        tensor2d_t errors_losses(2, N);
+        tensor4d_t gradients(N, 1, 1, 1);
+        int        haspos[16] = {0};
+        for (tensor_size_t s = 0; s < N; ++s)
+        {
+            errors_losses(0, s) = 1.0;
+            if (sbv_range("wpos", 0, 1) != 0) // a real branch (the call keeps it from becoming a select): concrete weights per path
+            {
+                sbv_note("positive weight");
+                haspos[s]             = 1;
+                errors_losses(1, s)   = 0.5 + static_cast<scalar_t>(s);
+                gradients(s, 0, 0, 0) = -1.0 - static_cast<scalar_t>(s);
+            }
+            else
+            {
+                haspos[s]             = 0;
+                errors_losses(1, s)   = 0.0;
+                gradients(s, 0, 0, 0) = 0.0;
+            }
+        }
+        if (type == gboost_subsample::wei_loss_bootstrap || type == gboost_subsample::wei_grad_bootstrap)
+        {
+            int any = 0;
+            for (tensor_size_t i = 0; i < n; ++i)
+                for (tensor_size_t s = 0; s < N; ++s) any |= (samples(i) == s && haspos[s]) ? 1 : 0;
+            if (!any) sbv_prune(); // at least one sample of the subset has a positive weight
+        }
+        const scalar_t    ratio = 0.5;
+        gboost::sampler_t sampler(samples, type, 42U, ratio);
+        const auto        sel      = sampler.sample(errors_losses, gradients);
+        const auto        expected = type == gboost_subsample::off ? n : static_cast<tensor_size_t>(ratio * static_cast<scalar_t>(n));
+        sbv_check(sel.size() == expected, "gboost sampler: floor(ratio * n) samples");
+        sbv_check(type == gboost_subsample::subsample ? strictly_sorted(sel) : sorted(sel), "gboost sampler: sorted (distinct for subsampling)");
+        int all_members = 1, nonzero = 1;
+        for (tensor_size_t i = 0; i < sel.size(); ++i)
+        {
+            all_members &= member(samples, sel(i));
+            int ok = 0;
+            for (tensor_size_t s = 0; s < N; ++s) ok |= (sel(i) == s && haspos[s]) ? 1 : 0;
+            nonzero &= ok;
+        }
+        sbv_check(all_members, "gboost sampler: members of the given samples");
+        if (type == gboost_subsample::wei_loss_bootstrap || type == gboost_subsample::wei_grad_bootstrap)
+            sbv_check(nonzero, "gboost sampler: weighted variants never return a sample of zero weight");
         for (tensor_size_t i = 0; i < sel.size(); ++i) sbv_out("sel", static_cast<uint64_t>(sel(i)));
     }
     sbv_reach("end of harness");
